@@ -998,6 +998,140 @@ func runCred(c credCase, scale time.Duration) ([]string, error) {
 // no answer) is tried again with scale 2 and 4 before it counts as an error.
 type job func(scale time.Duration) ([]string, error)
 
+// ---------------------------------------------------------------- part C: two peers of one gateway (C15)
+
+// snPeer is a minimal MQTT-SN peer on its own UDP socket (its own address).
+type snPeer struct {
+	c  *net.UDPConn
+	gw *net.UDPAddr
+	in chan pkts.Packet
+}
+
+func newPeer(port int) (*snPeer, error) {
+	c, err := net.ListenUDP("udp4", &net.UDPAddr{IP: net.IPv4(127, 0, 0, 1)})
+	if err != nil {
+		return nil, err
+	}
+	p := &snPeer{c: c, gw: &net.UDPAddr{IP: net.IPv4(127, 0, 0, 1), Port: port}, in: make(chan pkts.Packet, 32)}
+	go func() {
+		buf := make([]byte, 2048)
+		for {
+			n, _, err := c.ReadFromUDP(buf)
+			if err != nil {
+				return
+			}
+			if q := parseSN(buf[:n]); q != nil {
+				p.in <- q
+			}
+		}
+	}()
+	return p, nil
+}
+
+// ask sends pkt (repeating it a few times) until a packet accepted by want arrives.
+func (p *snPeer) ask(pkt pkts.Packet, scale time.Duration, want func(pkts.Packet) bool) bool {
+	b := packSN(pkt)
+	for try := 0; try < 3; try++ {
+		if _, err := p.c.WriteToUDP(b, p.gw); err != nil {
+			return false
+		}
+		timeout := time.After(scale * 700 * time.Millisecond)
+		for waiting := true; waiting; {
+			select {
+			case q := <-p.in:
+				if want(q) {
+					return true
+				}
+			case <-timeout:
+				waiting = false
+			}
+		}
+	}
+	return false
+}
+
+// runIsolation: the real gateway binary (accept loop, one session per peer address), two peers. Peer A
+// connects first and B second; A's session ends; B's session must be unaffected (same registration,
+// still served) and A's address must be able to connect again.  One line:
+//
+//	CLI15 two-peers -> ok | fail=<step>
+func runIsolation(scale time.Duration) ([]string, error) {
+	res := func(r string) []string { return []string{"CLI15 two-peers -> " + r} }
+	br, err := newFakeBroker(func(mqttref.Packet) {})
+	if err != nil {
+		return res("skipped"), fmt.Errorf("fake broker: %v", err)
+	}
+	defer br.close()
+	port, err := freeUDPPort()
+	if err != nil {
+		return res("skipped"), err
+	}
+	p, err := startProc("bisquitt", []string{"--mqtt-host", "127.0.0.1", "--mqtt-port", strconv.Itoa(br.port),
+		"--host", "127.0.0.1", "--port", strconv.Itoa(port)}, nil)
+	if err != nil {
+		return res("skipped"), err
+	}
+	defer p.stop()
+	if !waitBound(p, port, scale*startTimeout) {
+		return res("skipped"), fmt.Errorf("isolation: port %d not bound", port)
+	}
+	a, err := newPeer(port)
+	if err != nil {
+		return res("skipped"), err
+	}
+	defer a.c.Close()
+	b, err := newPeer(port)
+	if err != nil {
+		return res("skipped"), err
+	}
+	defer b.c.Close()
+	connack := func(q pkts.Packet) bool { k, ok := q.(*pkts1.Connack); return ok && k.ReturnCode == pkts1.RC_ACCEPTED }
+	if !a.ask(pkts1.NewConnect(60, []byte("peerA"), false, true), scale, connack) {
+		return res("fail=connect-A"), nil
+	}
+	if !b.ask(pkts1.NewConnect(60, []byte("peerB"), false, true), scale, connack) {
+		return res("fail=connect-B"), nil
+	}
+	var tid uint16
+	reg := pkts1.NewRegister(0, "iso/b")
+	reg.SetMessageID(11)
+	if !b.ask(reg, scale, func(q pkts.Packet) bool {
+		k, ok := q.(*pkts1.Regack)
+		if ok && k.ReturnCode == pkts1.RC_ACCEPTED {
+			tid = k.TopicID
+		}
+		return ok
+	}) || tid == 0 {
+		return res("fail=register-B"), nil
+	}
+	// A's session ends
+	if !a.ask(pkts1.NewDisconnect(0), scale, func(q pkts.Packet) bool { _, ok := q.(*pkts1.Disconnect); return ok }) {
+		return res("fail=disconnect-A"), nil
+	}
+	time.Sleep(scale * 300 * time.Millisecond)
+	// B is still served by ITS session: the same registration, pings answered
+	reg2 := pkts1.NewRegister(0, "iso/b")
+	reg2.SetMessageID(12)
+	same := false
+	if !b.ask(reg2, scale, func(q pkts.Packet) bool {
+		k, ok := q.(*pkts1.Regack)
+		if ok {
+			same = k.ReturnCode == pkts1.RC_ACCEPTED && k.TopicID == tid
+		}
+		return ok
+	}) || !same {
+		return res("fail=B-lost-its-session-after-A-left"), nil
+	}
+	if !b.ask(pkts1.NewPingreq(nil), scale, func(q pkts.Packet) bool { _, ok := q.(*pkts1.Pingresp); return ok }) {
+		return res("fail=B-ping-after-A-left"), nil
+	}
+	// A's address can connect again
+	if !a.ask(pkts1.NewConnect(60, []byte("peerA"), false, true), scale, connack) {
+		return res("fail=reconnect-A"), nil
+	}
+	return res("ok"), nil
+}
+
 func main() {
 	var seed uint64
 	var n, par int
@@ -1069,6 +1203,10 @@ func main() {
 				jobs = append(jobs, func(s time.Duration) ([]string, error) { return runCred(c, s) })
 			}
 		}
+	}
+
+	if *partA { // part C rides along with part A (one more process of the gateway binary)
+		jobs = append(jobs, runIsolation)
 	}
 
 	results := make([][]string, len(jobs))
